@@ -120,7 +120,16 @@ func deepCastRecursive(val Value, typ ast.Type, span errors.Span, allowCasts boo
 			}
 			return NewValueOption(innerCast), nil
 		}
-		return NewValueOption(&val), nil
+		// `null` is the empty option
+		if val.Kind() == NullValueKind {
+			return NewNoneOption(), nil
+		}
+		// A `T` becomes a `?T`: the wrapped value must itself be a `T`
+		innerCast, i := deepCastRecursive(val, typ.(ast.OptionType).Inner, span, allowCasts, fieldURI)
+		if i != nil {
+			return nil, i
+		}
+		return NewValueOption(innerCast), nil
 	}
 
 	switch val.Kind() {
